@@ -209,13 +209,13 @@ pub proof fn lemma_no_limit_push(tr: Seq<Gen>, g: Gen, from: int)
 //@ |         }
 //@ |     }
 //@ | }
-//@ before <<<return gen_result.map(>>>
+//@ before? <<<return gen_result.map(>>>
 //@ | proof {
 //@ |     let tr = context.tr@;
 //@ |     assert(tr[tr.len() - 1].outcome is LimitErr);     // only a limit error may end the pass early  @C10.retry.gives_up_only_when_stalled
 //@ |     assert(!no_limit_err(tr, g_from));
 //@ | }
-//@ before <<<return Err(SvgdxError::MultiError(element_errors));>>>
+//@ after <<<if tags.len() == remain.len() {>>>
 //@ | proof {
 //@ |     if !context.in_specs {
 //@ |         let tr = context.tr@;
